@@ -1,4 +1,5 @@
 //! Shared helpers for the correspondence harnesses.
+pub mod r#gen;
 
 /// SplitMix64 — the single PRNG every random choice derives from (seeded by `VERIF_SEED`).
 #[derive(Clone)]
